@@ -71,8 +71,37 @@ ood!(air_ood_lagrange_trailing_bounded, 17, 10, 8, 1, 1, 1);
 ood!(air_ood_eval_trailing_bounded, 17, 1, 9, 1, 0, 1);
 ood!(air_ood_empty_components_bounded, 0, 0, 0, 1, 0, 1);
 ood!(air_ood_two_columns_bounded, 33, 1, 16, 1, 1, 2);
-// a trace-state vector that holds 4 elements for a 1-column trace: a frame-size byte of 4 (rows twice as wide as the trace) must be refused
-ood!(air_ood_wide_rows_bounded, 33, 1, 8, 1, 0, 1);
+// a trace-state vector that holds 4 elements for a 1-column trace with a frame-size byte of 4 (rows twice as wide as the
+// trace, which the verifier would take for an auxiliary frame) or 1 must be refused. The input is concrete but for that choice.
+#[kani::proof]
+#[kani::unwind(12)]
+#[kani::stub(alloc::fmt::format, fmt_stub)]
+fn air_ood_wide_rows_bounded() {
+    let mut bytes = [0u8; 6 + 33 + 1 + 8];
+    bytes[0] = 33;
+    // frame size: 4 or 1 (everything else about the input is fixed, so that CBMC propagates constants through the decoder)
+    bytes[2] = if kani::any() { 4 } else { 1 };
+    bytes[3] = 1;
+    bytes[11] = 2;
+    bytes[19] = 3;
+    bytes[27] = 4;
+    bytes[2 + 33] = 1; // Lagrange kernel section: one byte (frame size 0)
+    bytes[2 + 33 + 2 + 1] = 8; // evaluations: one element
+    bytes[2 + 33 + 2 + 1 + 2] = 9;
+    let frame_size = bytes[2];
+    kani::cover!(frame_size == 4);
+    let mut rd = SliceReader::new(&bytes);
+    let frame = OodFrame::read_from(&mut rd).unwrap();
+    assert!(!rd.has_more_bytes());
+    match frame.parse::<BaseElement>(1, 0, 1) {
+        Ok((trace_frame, _)) => {
+            // 4 elements never are the two rows of a 1-column trace
+            assert!(frame_size == 2 && false);
+            let _ = trace_frame.num_columns();
+        },
+        Err(_) => {},
+    }
+}
 
 /// Table::from_bytes for every admissible shape (1..=255 rows and columns, as many as ProofOptions and
 /// TraceInfo allow) on a short byte string: never panics; Err because the bytes run out
